@@ -14,9 +14,8 @@ import (
 // uninterpreted "invalid digit" bit; an odd length is an error. Decided for all values / all characters at once:
 // UnmarshalText(MarshalText(v)) = v, also with a leading 0x; every text whose length after the optional 0x is not twice
 // the array length is rejected; no text makes the decoder panic.
-func c11TextE1(c *Ctx) {
+func c11TextE1(c *Ctx, rule string) {
 	r := c.Run
-	const rule = "R5.text"
 	r.Rule(rule, "EUI64/DevAddr/NetID/AES128Key: UnmarshalText(MarshalText(v)) = v with and without 0x; texts of every other length (0..2N+2 after the optional prefix) are rejected for all characters; no panic")
 	for _, T := range []struct {
 		name string
@@ -146,6 +145,126 @@ func c11TextE1(c *Ctx) {
 				}
 				r.Check(okAll, rule, key, "", fmt.Sprintf("a text of %d characters after the optional prefix is rejected (%d expected)", L, 2*T.n), why, true)
 			}
+		}
+	}
+}
+
+// c11SQLE1: the database forms of the four identifier types on the bit-level engine. Scan(src): a []byte of exactly N
+// symbolic bytes is accepted and becomes the value byte for byte; a []byte of any other length 0..N+2, a string, an
+// integer and nil are errors, never panics. Value(): a []byte holding the N bytes of the value, no error.
+func c11SQLE1(c *Ctx, rule string) {
+	r := c.Run
+	r.Rule(rule, "EUI64/DevAddr/NetID/AES128Key: Scan accepts exactly a []byte of the array length and copies it; every other length and every other dynamic type is an error (no panic); Value returns the bytes")
+	byteSlice := types.NewSlice(types.Typ[types.Uint8])
+	for _, T := range []struct {
+		name string
+		n    int
+	}{{"EUI64", 8}, {"DevAddr", 4}, {"NetID", 3}, {"AES128Key", 16}} {
+		for L := 0; L <= T.n+2; L++ {
+			key := fmt.Sprintf("%s/scan/bytes%d", T.name, L)
+			in := absint.NewInterp(c.Prog)
+			d := in.D
+			NT := in.NamedType("", T.name)
+			src := in.SymBytes("s", L)
+			recv := &absint.Cell{V: in.Zero(NT)}
+			var res []absint.Value
+			err := in.Try(func() {
+				res = in.CallMethod(recv, NT, "Scan", &absint.Iface{Dyn: src, DynT: byteSlice})
+			})
+			if err != nil {
+				if pe, isP := err.(absint.Panic); isP {
+					r.Bad(rule, key, "", "a value or an error", "panics: "+pe.Why)
+				} else {
+					r.Unknown(rule, key, "", "Scan inside the interpreter's subset", err.Error())
+				}
+				continue
+			}
+			ev, _ := res[0].(*absint.ErrVal)
+			if ev == nil {
+				r.Unknown(rule, key, "", "error result", in.Show(res[0]))
+				continue
+			}
+			if L != T.n {
+				acc := d.M.Not(ev.NonNil)
+				r.Check(acc == absint.False, rule, key, "", fmt.Sprintf("%d bytes are rejected (%d expected)", L, T.n), witnessOr(in, acc, "rejected for every content"), true)
+				continue
+			}
+			if ev.NonNil != absint.False {
+				r.Bad(rule, key, "", "a []byte of the exact length is accepted", witnessOr(in, ev.NonNil, ""))
+				continue
+			}
+			arr, ok := recv.V.(*absint.Array)
+			good, why := ok && len(arr.E) == T.n, "every byte equals the source byte"
+			for i := 0; good && i < T.n; i++ {
+				if same, w := sameValue(in, arr.E[i].V, src.At(i).V, absint.True); !same {
+					good, why = false, fmt.Sprintf("byte %d: %s", i, w)
+				}
+			}
+			r.Check(good, rule, key, "", "value[i] = src[i] for every i", why, true)
+		}
+		// other dynamic types
+		for _, alt := range []struct {
+			name string
+			mk   func(in *absint.Interp) absint.Value
+		}{
+			{"nil", func(in *absint.Interp) absint.Value { return &absint.Iface{Dyn: absint.NilVal{}} }},
+			{"string", func(in *absint.Interp) absint.Value {
+				return &absint.Iface{Dyn: &absint.StrVal{}, DynT: types.Typ[types.String]}
+			}},
+			{"int64", func(in *absint.Interp) absint.Value {
+				return &absint.Iface{Dyn: in.D.Sym("n", 64, true, false), DynT: types.Typ[types.Int64]}
+			}},
+		} {
+			key := fmt.Sprintf("%s/scan/%s", T.name, alt.name)
+			in := absint.NewInterp(c.Prog)
+			NT := in.NamedType("", T.name)
+			var res []absint.Value
+			err := in.Try(func() {
+				res = in.CallMethod(&absint.Cell{V: in.Zero(NT)}, NT, "Scan", alt.mk(in))
+			})
+			if err != nil {
+				if pe, isP := err.(absint.Panic); isP {
+					r.Bad(rule, key, "", "an error, not a panic", "panics: "+pe.Why)
+				} else {
+					r.Unknown(rule, key, "", "Scan inside the interpreter's subset", err.Error())
+				}
+				continue
+			}
+			ev, _ := res[0].(*absint.ErrVal)
+			r.Check(ev != nil && ev.NonNil == absint.True, rule, key, "", "a source that is not a []byte is an error", in.Show(res[0]), true)
+		}
+		// Value
+		{
+			key := T.name + "/value"
+			in := absint.NewInterp(c.Prog)
+			NT := in.NamedType("", T.name)
+			var v absint.Value
+			var res []absint.Value
+			err := in.Try(func() {
+				v = in.Sym("v", NT, false)
+				res = in.CallMethod(&absint.Cell{V: absint.Copy(v)}, NT, "Value")
+			})
+			if err != nil {
+				r.Unknown(rule, key, "", "Value inside the interpreter's subset", err.Error())
+				continue
+			}
+			ev, _ := res[1].(*absint.ErrVal)
+			out := res[0]
+			if ifc, ok := out.(*absint.Iface); ok {
+				out = ifc.Dyn
+			}
+			sl, ok := out.(*absint.Slice)
+			good, why := ok && ev != nil && ev.NonNil == absint.False && sl.Len() == T.n, "the value's bytes"
+			if !good {
+				why = in.Show(res[0]) + ", " + in.Show(res[1])
+			}
+			arr, _ := v.(*absint.Array)
+			for i := 0; good && arr != nil && i < T.n; i++ {
+				if same, w := sameValue(in, sl.At(i).V, arr.E[i].V, absint.True); !same {
+					good, why = false, fmt.Sprintf("byte %d: %s", i, w)
+				}
+			}
+			r.Check(good, rule, key, "", fmt.Sprintf("Value() = the %d bytes of the value, nil error", T.n), why, true)
 		}
 	}
 }
